@@ -169,7 +169,25 @@ fn main() {
     for _ in 0..n / 2 {
         let axes = *rng.pick(&axsets);
         let a = gen_loc(&mut rng, axes);
-        let b = if rng.chance(1, 2) {
+        let b: Vec<(String, f64)> = if rng.chance(1, 4) {
+            // neighbours a few units in the last place apart (and up to about one f32 ulp): any lossy
+            // formatting of the coordinate makes them collide
+            let k = *rng.pick(&[1u64, 2, 3, 1 << 10, 1 << 20, 1 << 28, 1 << 29, 1 << 30]);
+            let which = rng.below(a.len() as u64) as usize;
+            a.iter()
+                .enumerate()
+                .map(|(i, (t, v))| {
+                    if i == which {
+                        let base = if *v == 0.0 { 0.25 } else { *v };
+                        let bits = base.abs().to_bits();
+                        let nb = f64::from_bits(if rng.chance(1, 2) { bits + k } else { bits - k });
+                        (t.clone(), if base < 0.0 { -nb } else { nb }.clamp(-1.0, 1.0))
+                    } else {
+                        (t.clone(), *v)
+                    }
+                })
+                .collect()
+        } else if rng.chance(1, 2) {
             // a close neighbour
             a.iter().map(|(t, v)| (t.clone(), if rng.chance(1, 2) { *v } else { (v + rng.range(-12, 12) as f64 / 1000.0).clamp(-1.0, 1.0) })).collect()
         } else {
